@@ -166,7 +166,10 @@ pub trait ChainStore: Send + Sync + Sized {
             })
             .collect();
 
-        if let Some(cache) = self.cache() {
+        // every stored block has a cellbase: an empty list means the block is not stored (yet), which must not be remembered
+        if let Some(cache) = self.cache()
+            && !ret.is_empty()
+        {
             cache.block_tx_hashes.lock().put(hash.clone(), ret.clone());
         }
 
@@ -234,7 +237,10 @@ pub trait ChainStore: Send + Sync + Sized {
             .get(COLUMN_BLOCK_EXTENSION, hash.as_slice())
             .map(|slice| packed::BytesReader::from_slice_should_be_ok(slice.as_ref()).to_entity());
 
-        if let Some(cache) = self.cache() {
+        // "no extension" is remembered only for a block that is stored: the answer for an unknown block changes when it arrives
+        if let Some(cache) = self.cache()
+            && (ret.is_some() || self.block_exists(hash))
+        {
             cache.block_extensions.lock().put(hash.clone(), ret.clone());
         }
         ret
